@@ -270,10 +270,16 @@ class Interp:
         rs = np.random.RandomState(s["seed"])
         n, addr = s["n"], s["addr"]
         chs, badch = self.chans(s["chs"])
-        per_channel = s["form"] == "2d"
+        per_channel = s["form"].startswith("2d")
         if per_channel:
             bits2 = rs.randint(0, 2, (len(chs), n)).astype(np.uint8)
-            arg = bits2
+            # the same per-channel matrix in the memory layouts arrays arrive in: C order, Fortran order, a transposed view
+            # (e.g. serial.reshape(-1, 4).T of a demultiplexed stream), boolean
+            arg = {"2d": bits2, "2d-F": np.asfortranarray(bits2), "2d-T": np.ascontiguousarray(bits2.T).T, "2d-bool": bits2.astype(bool)}[s["form"]]
+        elif s["form"] == "strided":
+            bits = rs.randint(0, 2, n).astype(np.uint8)
+            bits2 = np.tile(bits, (len(chs), 1))
+            arg = np.repeat(bits, 3)[::3]            # a non-contiguous 1-D view holding the same bits
         else:
             bits = rs.randint(0, 2, n).astype(np.uint8)
             bits2 = np.tile(bits, (len(chs), 1))
@@ -372,7 +378,7 @@ s_mode = st.fixed_dictionaries({"op": st.just("mode"), "v": st.sampled_from(["da
 s_outp = st.fixed_dictionaries({"op": st.just("outputs"), "v": st.booleans(), "chs": s_ch})
 s_n = st.one_of(st.integers(1, 64), st.sampled_from([1023, 1024, 1025, 2047, 2048, 2049, 3071, 3072, 3073, 4096, 10000]), st.integers(1, 10000))
 s_data = st.fixed_dictionaries({"op": st.just("data"), "n": s_n, "addr": st.one_of(st.just(1), st.integers(1, 5000), st.integers(1, MEM - 10000)), "seed": st.integers(0, 2 ** 31 - 1),
-                                "form": st.sampled_from(["str", "list", "array", "bool", "2d"]), "chs": st.one_of(st.none(), st.integers(1, 4), st.lists(st.integers(1, 4), min_size=1, max_size=4, unique=True))})
+                                "form": st.sampled_from(["str", "list", "array", "bool", "2d", "2d-F", "2d-T", "2d-bool", "strided"]), "chs": st.one_of(st.none(), st.integers(1, 4), st.lists(st.integers(1, 4), min_size=1, max_size=4, unique=True))})
 s_cfg = st.fixed_dictionaries({"op": st.just("config"), "via": st.sampled_from(["config", "call"]), "kw": st.fixed_dictionaries({
     "freq": st.one_of(st.none(), around(*LIM["freq"])), "patt_len": st.one_of(st.none(), around(*LIM["plen"], integer=True)), "Vout": st.one_of(st.none(), around(*LIM["amp"])),
     "offset": st.one_of(st.none(), around(*LIM["off"])), "skew": st.one_of(st.none(), around(*LIM["skew"])), "mode": st.one_of(st.none(), st.sampled_from(["DATA", "PRBS"])),
@@ -498,7 +504,9 @@ def e_sync(c):
         g.add_signal("rx", arg)
     else:
         g.add("rx", arg)
-    out = lib(LAB.SYNC, arg, tx, None if c["form"] == "es" else sps)
+    # sps as the integer types a capture file / an array of settings yields
+    sps_arg = [sps, sps, np.int64(sps), np.int32(sps), np.uint64(sps), np.uint8(sps)][c["seed"] % 6]
+    out = lib(LAB.SYNC, arg, tx, None if c["form"] == "es" else sps_arg)
     check(isinstance(out, tuple) and len(out) == 2, "sync-return-shape", "")
     sig, i = out
     check(type(sig) is electrical_signal, "sync-output-type", type(sig).__name__)
